@@ -42,7 +42,7 @@ def _cases(tier, seed):
                     cs.append({'scen': 'ttm_matmat', 's': {'M': M, 'K': K, 'N': N, 'RA': RA, 'RB': Rx, 'dtype': 'float64'}})
             RA = _pick(_rank_profiles(d, ch), 1, rng)[0]
             cs.append({'scen': 'ttm_transpose', 's': {'M': M, 'N': N, 'RA': RA, 'dtype': 'float64'}})
-            for batch in ([], [2], [2, 1], [1, 2, 2]):
+            for batch in ([], [2], [1], [2, 1], [1, 1], [1, 2, 2]):
                 if len(batch) == 3 and d == 3 and not th:
                     continue
                 cs.append({'scen': 'ttm_dense_matvec', 's': {'M': M, 'N': N, 'RA': RA, 'batch': batch, 'dtype': 'float64'}})
